@@ -310,6 +310,10 @@ def gen_population(rng, cfg, workdir, scale=1.0, big_dir=None, late_dirs=0, deep
         big_dir = rng.weighted([(0, 5), (rng.range(30, 120), 3), (rng.range(200, 700), 2)])
     if big_dir:
         cmds.append('mkdir "/bigdir"')
+        if "casefold" in feats and rng.chance(0.7):
+            # a case-insensitive directory (chattr +F on the empty directory); a fresh directory's other flags are known
+            fl = 0x40000000 | (0x10000000 if "inline_data" in feats else (0x80000 if "extent" in feats else 0))
+            cmds.append('set_inode_field "/bigdir" flags 0x%x' % fl)
         empty = host(b"")
         nl = rng.choice([8, 20, 40, 120])
         for i in range(big_dir):
@@ -319,7 +323,7 @@ def gen_population(rng, cfg, workdir, scale=1.0, big_dir=None, late_dirs=0, deep
             else:
                 cmds.append('write "%s" "/bigdir/%s"' % (empty, nm))
     # a file whose extent tree has interior nodes: data blocks alternating with holes (debugfs write skips zero blocks)
-    if deep_extents and "extent" in feats and bs <= 2048 and cfg["size_kib"] >= 4096:
+    if deep_extents and "extent" in feats and ((bs <= 2048 and cfg["size_kib"] >= 4096) or cfg["size_kib"] >= 24576):
         per_leaf = (bs - 12) // 12
         nx = rng.range(4 * per_leaf + 10, 4 * per_leaf + rng.choice([40, 300, 900]))
         nx = min(nx, int(cfg["size_kib"] * 1024 * 0.35) // bs)
@@ -403,11 +407,17 @@ def fsck_status_ok_for_repair(status):
 
 
 def build_world(rng, workdir, cfg=None, scale=1.0, big_dir=None, small=False, want=None, avoid=(), name="img",
-                rehash=None, late_dirs=0, deep_extents=False, special_xattrs=False):
+                rehash=None, late_dirs=0, deep_extents=False, special_xattrs=False, min_kib=0, casefold_p=0.0):
     """mkfs + populate (+ optional e2fsck -fyD to index directories).  Returns dict or None when mke2fs
     rejected the configuration or population failed in a way that leaves nothing to test."""
     if cfg is None:
+        if casefold_p and rng.chance(casefold_p):
+            want = sorted(set(want or ()) | set(("casefold", "filetype")))
+            if big_dir is None:
+                big_dir = rng.range(60, 400)
         cfg = gen_config(rng, small=small, want=want, avoid=avoid)
+    if min_kib and cfg["size_kib"] < min_kib:
+        cfg["size_kib"] = min_kib
     img = os.path.join(workdir, name)
     r = mkfs(cfg, img, workdir, rand_seed=rng.u64() >> 1)
     if r.status != 0 or r.san:
